@@ -22,7 +22,7 @@
 From Coq Require Import NArith List Bool Lia.
 Import ListNotations.
 From CXV Require Import Gen.TokTy Gen.ParserTables Parse.Balanced Parse.BalancedThms Parse.Declarator Parse.DeclSpec Parse.DeclThms
-  Parse.EnumList Parse.Specs Parse.VarStmt Parse.FnTail Parse.Init.
+  Parse.EnumList Parse.Specs Parse.VarStmt Parse.FnTail Parse.Init Parse.Members.
 Open Scope N_scope.
 
 Inductive entry :=
@@ -30,7 +30,6 @@ Inductive entry :=
 | EFn (nm : N) (rt : ty) (ps : list (ty * option N)) (va : bool) (tl : tail).
 
 Definition LT := T_LIT_60.
-Definition COLON := T_LIT_58.
 
 (* `tok = self.lex.token_if("(")` at the head of _parse_decl, when the type is
    not a constructor name: the group is consumed; an '->' behind it makes a
@@ -48,8 +47,8 @@ Definition strip_group (r1 : list tk) : dres (list tk) :=
   | [] => DOk r1
   end.
 
-(* _parse_field at namespace scope, behind the name *)
-Definition field_part (fuel : nat) (mu : bool) (d : ty) (nm : N) (r2 : list tk) : dres (entry * bool * list tk) :=
+(* _parse_field at namespace scope, behind the name; [td]: the statement is a typedef (no initialiser, a Typedef is built) *)
+Definition field_part (fuel : nat) (td mu : bool) (d : ty) (nm : N) (r2 : list tk) : dres (entry * bool * list tk) :=
   let arr := match r2 with
              | a :: r3 => if is LB a then arrtype fuel d a r3 else DOk (d, r2)
              | [] => DOk (d, r2)
@@ -59,31 +58,34 @@ Definition field_part (fuel : nat) (mu : bool) (d : ty) (nm : N) (r2 : list tk) 
   | DOk (d1, r4) =>
       match r4 with
       | c :: _ => if is COLON c then DErr 1 else
-          match init_part false r4 with
+          match init_part td r4 with
           | DErr e => DErr e
-          | DOk (iv, r5) => if mu then DErr 3 else DOk (EVar nm d1 iv, false, r5)
+          | DOk (iv, r5) => if td then DOk (EVar nm d1 iv, false, r5) else if mu then DErr 3 else DOk (EVar nm d1 iv, false, r5)
           end
       | [] =>
-          match init_part false r4 with
+          match init_part td r4 with
           | DErr e => DErr e
-          | DOk (iv, r5) => if mu then DErr 3 else DOk (EVar nm d1 iv, false, r5)
+          | DOk (iv, r5) => if td then DOk (EVar nm d1 iv, false, r5) else if mu then DErr 3 else DOk (EVar nm d1 iv, false, r5)
           end
       end
   end.
 
-(* _parse_function at namespace scope for a one-segment name, behind the '(' *)
-Definition fn_part (fuel : nat) (d : ty) (nm : N) (r3 : list tk) : dres (entry * bool * list tk) :=
+(* _parse_function at namespace scope for a one-segment name, behind the '('; in a typedef a FunctionType is built, a body
+   is an error and the statement always goes on *)
+Definition fn_part (fuel : nat) (td : bool) (d : ty) (nm : N) (r3 : list tk) : dres (entry * bool * list tk) :=
   match params fuel r3 with
   | DErr e => DErr e
   | DOk (ps, va, r4) =>
       match fn_tail r4 with
       | DErr e => DErr e
-      | DOk (tl, r5) => DOk (EFn nm d ps va tl, t_body tl, r5)
+      | DOk (tl, r5) =>
+          if td then (if t_body tl then DErr 3 else DOk (EFn nm d ps va tl, false, r5))
+          else DOk (EFn nm d ps va tl, t_body tl, r5)
       end
   end.
 
 (* one call of _parse_decl: the entry, whether it ended the statement, the rest *)
-Definition one_decl (fuel : nat) (mu : bool) (b : ty) (toks : list tk) : dres (entry * bool * list tk) :=
+Definition one_decl (fuel : nat) (td mu : bool) (b : ty) (toks : list tk) : dres (entry * bool * list tk) :=
   match cvptr fuel b toks with
   | DErr e => DErr e
   | DOk (d, r1) =>
@@ -97,10 +99,10 @@ Definition one_decl (fuel : nat) (mu : bool) (b : ty) (toks : list tk) : dres (e
                 if is T_NAME t then
                   match r2 with
                   | a :: r3 =>
-                      if is LP a then fn_part fuel d (kval t) r3
+                      if is LP a then fn_part fuel td d (kval t) r3
                       else if is T_DBL_COLON a || is LT a then DErr 4
-                      else field_part fuel mu d (kval t) r2
-                  | [] => field_part fuel mu d (kval t) r2
+                      else field_part fuel td mu d (kval t) r2
+                  | [] => field_part fuel td mu d (kval t) r2
                   end
                 else if is LP t then DErr 1                                  (* '(' without a name *)
                 else if memN (kty t) pqname_start_tokens then DErr 4         (* other names: outside the model *)
@@ -111,11 +113,11 @@ Definition one_decl (fuel : nat) (mu : bool) (b : ty) (toks : list tk) : dres (e
   end.
 
 (* the loop of _parse_declarations; [n] bounds the number of declarators *)
-Fixpoint decl_items (n : nat) (fuel : nat) (mu : bool) (b : ty) (toks : list tk) : dres (list entry * list tk) :=
+Fixpoint decl_items (n : nat) (fuel : nat) (td mu : bool) (b : ty) (toks : list tk) : dres (list entry * list tk) :=
   match n with
   | O => DErr 9
   | S n' =>
-      match one_decl fuel mu b toks with
+      match one_decl fuel td mu b toks with
       | DErr e => DErr e
       | DOk (e, ended, r) =>
           if ended then DOk ([e], r)
@@ -123,7 +125,7 @@ Fixpoint decl_items (n : nat) (fuel : nat) (mu : bool) (b : ty) (toks : list tk)
             match r with
             | s :: r' =>
                 if is COMMA s then
-                  match decl_items n' fuel mu b r' with
+                  match decl_items n' fuel td mu b r' with
                   | DOk (l, r'') => DOk (e :: l, r'')
                   | DErr e' => DErr e'
                   end
@@ -142,19 +144,30 @@ Definition decl_stmt (n fuel : nat) (toks : list tk) : dres (mods * list entry *
       | a :: _ =>
           if is T_auto a then DErr 4                     (* abbreviated template return type *)
           else if validate true false m then
-            match decl_items n fuel (m_mutable m) (TBase b (m_const m) (m_volatile m)) r with
+            match decl_items n fuel false (m_mutable m) (TBase b (m_const m) (m_volatile m)) r with
             | DOk (l, r') => DOk (m, l, r')
             | DErr e => DErr e
             end
           else DErr 3
       | [] =>
           if validate true false m then
-            match decl_items n fuel (m_mutable m) (TBase b (m_const m) (m_volatile m)) r with
+            match decl_items n fuel false (m_mutable m) (TBase b (m_const m) (m_volatile m)) r with
             | DOk (l, r') => DOk (m, l, r')
             | DErr e => DErr e
             end
           else DErr 3
       end
+  end.
+
+(* `typedef` statements through the same loop (_parse_typedef hands the token behind `typedef` to _parse_declarations with
+   is_typedef): validate(False, False), no abbreviated-template promotion, every declarator a Typedef of an object type
+   or of a function type *)
+Definition typedef_decl_stmt (n fuel : nat) (toks : list tk) : dres (list entry * list tk) :=
+  match parse_specs toks with
+  | DErr e => DErr e
+  | DOk (m, b, r) =>
+      if validate false false m then decl_items n fuel true false (TBase b (m_const m) (m_volatile m)) r
+      else DErr 3
   end.
 
 (* ------------------------------------------------------------------ *)
@@ -268,18 +281,19 @@ Proof.
 Qed.
 
 (* a variable declarator with its initialiser *)
-Lemma one_decl_var b c v ls n i s rest :
-  legalL KB ls = true -> Forall layer_ok ls -> kind_end KB ls <> KFn -> init_ok i -> sep_ok s ->
-  ev (fun f => one_decl f false (TBase b c v) (P ls [mkTk T_NAME n] ++ init_toks i ++ s :: rest))
+Lemma one_decl_var td b c v ls n i s rest :
+  legalL KB ls = true -> Forall layer_ok ls -> kind_end KB ls <> KFn -> init_ok i -> sep_ok s -> (td = true -> i = NoInit) ->
+  ev (fun f => one_decl f td false (TBase b c v) (P ls [mkTk T_NAME n] ++ init_toks i ++ s :: rest))
      (DOk (EVar n (wrap (TBase b c v) ls) (init_value i), false, s :: rest)).
 Proof.
-  intros Hleg Hok Hk Hi Hs.
+  intros Hleg Hok Hk Hi Hs Htd.
   destruct (init_head_ok i s rest Hs) as (S1 & S2 & S3).
   destruct (declarator_rt b c v ls (Some n) (init_toks i ++ s :: rest) Hleg Hok Hk S1 S2)
     as (arrs & d & Hsn & Hnf & Hnr & Hw & [f1 H1]).
   cbn [name_toks] in H1.
   pose proof (init_head_facts i s rest Hs) as Hh.
-  pose proof (init_part_rt i s rest Hi Hs) as Hip.
+  assert (Hip : init_part td (init_toks i ++ s :: rest) = DOk (init_value i, s :: rest)).
+  { destruct td; [rewrite (Htd eq_refl); cbn [init_toks app init_value]; now apply init_part_td|now apply init_part_rt]. }
   destruct arrs as [|a0 ar].
   - cbn [map wrap fold_left] in Hw. subst d. cbn [sufs app] in H1.
     exists f1. intros f Hge. unfold one_decl. rewrite H1 by lia. rewrite Hnf.
@@ -287,7 +301,7 @@ Proof.
     destruct (init_toks i ++ s :: rest) as [|a r3] eqn:E.
     { destruct i; discriminate E. }
     destruct Hh as (B1 & B2 & B3 & B4 & B5). rewrite B1, B4, B5. cbn [orb].
-    unfold field_part. rewrite B2, B3. rewrite Hip. reflexivity.
+    unfold field_part. rewrite B2, B3. rewrite Hip. destruct td; reflexivity.
   - destruct (arr_tail d (a0 :: ar) (init_toks i ++ s :: rest) ltac:(discriminate) (Hnr ltac:(discriminate)) Hsn S2)
       as (A & EA & [f2 H2]).
     rewrite EA in H1. rewrite Hw in H2.
@@ -297,7 +311,7 @@ Proof.
     unfold field_part. change (is LB (ktok LB)) with true. cbn iota. rewrite H2 by lia.
     destruct (init_toks i ++ s :: rest) as [|a r3] eqn:E.
     { destruct i; discriminate E. }
-    destruct Hh as (B1 & B2 & B3 & B4 & B5). rewrite B3. rewrite Hip. reflexivity.
+    destruct Hh as (B1 & B2 & B3 & B4 & B5). rewrite B3. rewrite Hip. destruct td; reflexivity.
 Qed.
 
 Lemma spec_head_nolb th ne nep X : nolb (spec_toks th ne nep ++ X) = true \/ spec_toks th ne nep = [].
@@ -306,10 +320,10 @@ Proof.
 Qed.
 
 (* a function declarator that does not end the statement *)
-Lemma one_decl_fn_decl b c v ls ps va n th ne nep s rest :
+Lemma one_decl_fn_decl td b c v ls ps va n th ne nep s rest :
   legalL KB (ls ++ [LFn ps va]) = true -> Forall layer_ok (ls ++ [LFn ps va]) ->
   (kind_end KB ls = KB \/ kind_end KB ls = KRef) -> spec_ok th ne nep -> sep_ok s ->
-  ev (fun f => one_decl f false (TBase b c v) (P (ls ++ [LFn ps va]) [mkTk T_NAME n] ++ spec_toks th ne nep ++ s :: rest))
+  ev (fun f => one_decl f td false (TBase b c v) (P (ls ++ [LFn ps va]) [mkTk T_NAME n] ++ spec_toks th ne nep ++ s :: rest))
      (DOk (EFn n (wrap (TBase b c v) ls) ps va (tail_of th ne EndDecl), false, s :: rest)).
 Proof.
   intros Hleg Hok Hk (Hth & Hne) Hs.
@@ -330,7 +344,8 @@ Proof.
   destruct (cvptr f (TBase b c v) (P (ls ++ [LFn ps va]) [mkTk T_NAME n] ++ spec_toks th ne nep ++ s :: rest)) as [[d r1]|e];
     [|discriminate H1].
   injection H1 as -> ->. rewrite Hnf. rewrite strip_group_id by reflexivity. isc. cbn [kval].
-  change (is LP (ktok LP)) with true. cbn iota. unfold fn_part. rewrite H2 by lia. rewrite Htl. reflexivity.
+  change (is LP (ktok LP)) with true. cbn iota. unfold fn_part. rewrite H2 by lia. rewrite Htl.
+  destruct td; [|reflexivity]. unfold tail_of. cbn [t_body]. reflexivity.
 Qed.
 
 (* a function declarator that ends the statement with a body or continues to `= delete ;` *)
@@ -338,7 +353,7 @@ Lemma one_decl_fn_end b c v ls ps va n th ne nep en rest :
   legalL KB (ls ++ [LFn ps va]) = true -> Forall layer_ok (ls ++ [LFn ps va]) ->
   (kind_end KB ls = KB \/ kind_end KB ls = KRef) -> spec_ok th ne nep ->
   (match en with EndBody soup => bal tk kty LBRACE RBRACE soup | EndDelete => True | EndDecl => False end) ->
-  ev (fun f => one_decl f false (TBase b c v)
+  ev (fun f => one_decl f false false (TBase b c v)
                  (P (ls ++ [LFn ps va]) [mkTk T_NAME n] ++ spec_toks th ne nep ++ ending_toks en ++ rest))
      (DOk (EFn n (wrap (TBase b c v) ls) ps va (tail_of th ne en), match en with EndBody _ => true | _ => false end, rest)).
 Proof.
@@ -367,17 +382,17 @@ Qed.
 (* one declarator followed by a separator *)
 Lemma one_decl_item b c v it s rest :
   ditem_ok it -> sep_ok s ->
-  ev (fun f => one_decl f false (TBase b c v) (ditem_toks it ++ s :: rest))
+  ev (fun f => one_decl f false false (TBase b c v) (ditem_toks it ++ s :: rest))
      (DOk (ditem_entry (TBase b c v) it, false, s :: rest)).
 Proof.
   intros Hok Hs. destruct it as [ls n i|ls ps va n th ne nep]; cbn [ditem_toks ditem_entry ditem_ok] in *.
-  - destruct Hok as (H1 & H2 & H3 & H4). rewrite <- app_assoc. now apply one_decl_var.
+  - destruct Hok as (H1 & H2 & H3 & H4). rewrite <- app_assoc. apply one_decl_var; try assumption. discriminate.
   - destruct Hok as (H1 & H2 & H3 & H4). rewrite <- app_assoc. now apply one_decl_fn_decl.
 Qed.
 
 Lemma last_rt b c v it le rest :
   ditem_ok it -> last_ok it le ->
-  ev (fun f => decl_items 1 f false (TBase b c v) (ditem_toks it ++ last_toks le ++ rest))
+  ev (fun f => decl_items 1 f false false (TBase b c v) (ditem_toks it ++ last_toks le ++ rest))
      (DOk ([last_entry (TBase b c v) it le], rest)).
 Proof.
   intros Hok Hle. destruct le as [|soup|].
@@ -398,7 +413,7 @@ Qed.
 
 Lemma decl_items_rt b c v : forall items last le rest,
   Forall ditem_ok items -> ditem_ok last -> last_ok last le ->
-  ev (fun f => decl_items (S (length items)) f false (TBase b c v) (items_toks items last le ++ rest))
+  ev (fun f => decl_items (S (length items)) f false false (TBase b c v) (items_toks items last le ++ rest))
      (DOk (map (ditem_entry (TBase b c v)) items ++ [last_entry (TBase b c v) last le], rest)).
 Proof.
   induction items as [|it q IH]; intros last le rest Hall Hlast Hle.
@@ -409,15 +424,15 @@ Proof.
     destruct (IH last le rest Hq Hlast Hle) as [f2 H2].
     exists (Nat.max f1 f2). intros f Hge.
     change (length (it :: q)) with (S (length q)).
-    change (decl_items (S (S (length q))) f false (TBase b c v) (ditem_toks it ++ ktok COMMA :: items_toks q last le ++ rest))
-      with (match one_decl f false (TBase b c v) (ditem_toks it ++ ktok COMMA :: items_toks q last le ++ rest) with
+    change (decl_items (S (S (length q))) f false false (TBase b c v) (ditem_toks it ++ ktok COMMA :: items_toks q last le ++ rest))
+      with (match one_decl f false false (TBase b c v) (ditem_toks it ++ ktok COMMA :: items_toks q last le ++ rest) with
             | DErr e => DErr e
             | DOk (e, ended, r) =>
                 if ended then DOk ([e], r)
                 else match r with
                      | s :: r' =>
                          if is COMMA s then
-                           match decl_items (S (length q)) f false (TBase b c v) r' with
+                           match decl_items (S (length q)) f false false (TBase b c v) r' with
                            | DOk (l, r'') => DOk (e :: l, r'')
                            | DErr e' => DErr e'
                            end
@@ -490,4 +505,86 @@ Proof.
   rewrite !map_app, map_map. f_equal.
   - apply map_ext. intros [|]; reflexivity.
   - cbn [map]. destruct last, le; reflexivity.
+Qed.
+
+(* ------------------------------------------------------------------ *)
+(* typedef statements: `typedef cv* T cv* d1, ..., dn ;` -- every d an object declarator (no initialiser) or a function
+   declarator (optional exception specification): one Typedef per declarator, in order, of the object type or of the
+   function type *)
+
+Definition td_item_ok (it : ditem) : Prop :=
+  ditem_ok it /\ match it with IVar _ _ i => i = NoInit | IFn _ _ _ _ _ _ _ => True end.
+
+Lemma one_decl_item_td b c v it s rest :
+  td_item_ok it -> sep_ok s ->
+  ev (fun f => one_decl f true false (TBase b c v) (ditem_toks it ++ s :: rest))
+     (DOk (ditem_entry (TBase b c v) it, false, s :: rest)).
+Proof.
+  intros [Hok Hni] Hs. destruct it as [ls n i|ls ps va n th ne nep]; cbn [ditem_toks ditem_entry ditem_ok] in *.
+  - destruct Hok as (H1 & H2 & H3 & H4). rewrite <- app_assoc. apply one_decl_var; try assumption. intros _. exact Hni.
+  - destruct Hok as (H1 & H2 & H3 & H4). rewrite <- app_assoc. now apply one_decl_fn_decl.
+Qed.
+
+Lemma decl_items_td_rt b c v : forall items last rest,
+  Forall td_item_ok items -> td_item_ok last ->
+  ev (fun f => decl_items (S (length items)) f true false (TBase b c v) (items_toks items last LSemi ++ rest))
+     (DOk (map (ditem_entry (TBase b c v)) items ++ [ditem_entry (TBase b c v) last], rest)).
+Proof.
+  induction items as [|it q IH]; intros last rest Hall Hlast.
+  - cbn [items_toks length map app last_toks]. rewrite <- app_assoc. cbn [app].
+    destruct (one_decl_item_td b c v last (ktok SEMI) rest Hlast (or_intror eq_refl)) as [f1 H1].
+    exists f1. intros f Hge. cbn [decl_items]. rewrite H1 by exact Hge. isc. reflexivity.
+  - inversion Hall as [|? ? Hit Hq]; subst.
+    cbn [items_toks]. rewrite <- app_assoc. cbn [app].
+    destruct (one_decl_item_td b c v it (ktok COMMA) (items_toks q last LSemi ++ rest) Hit (or_introl eq_refl)) as [f1 H1].
+    destruct (IH last rest Hq Hlast) as [f2 H2].
+    exists (Nat.max f1 f2). intros f Hge.
+    change (length (it :: q)) with (S (length q)).
+    change (decl_items (S (S (length q))) f true false (TBase b c v) (ditem_toks it ++ ktok COMMA :: items_toks q last LSemi ++ rest))
+      with (match one_decl f true false (TBase b c v) (ditem_toks it ++ ktok COMMA :: items_toks q last LSemi ++ rest) with
+            | DErr e => DErr e
+            | DOk (e, ended, r) =>
+                if ended then DOk ([e], r)
+                else match r with
+                     | s :: r' =>
+                         if is COMMA s then
+                           match decl_items (S (length q)) f true false (TBase b c v) r' with
+                           | DOk (l, r'') => DOk (e :: l, r'')
+                           | DErr e' => DErr e'
+                           end
+                         else if is SEMI s then DOk ([e], r') else DErr 1
+                     | [] => DErr 2
+                     end
+            end).
+    rewrite H1 by lia. cbn iota. isc. rewrite H2 by lia. reflexivity.
+Qed.
+
+Theorem typedef_decl_stmt_roundtrip pre post b items last rest :
+  forallb (fun k => (k =? T_const) || (k =? T_volatile)) (pre ++ post) = true ->
+  Forall td_item_ok items -> td_item_ok last ->
+  let m := apply_kws (pre ++ post) mods0 in
+  let bt := TBase b (m_const m) (m_volatile m) in
+  ev (fun f => typedef_decl_stmt (S (length items)) f
+                 (kw_toks pre ++ nm_tok b :: kw_toks post ++ items_toks items last LSemi ++ rest))
+     (DOk (map (ditem_entry bt) items ++ [ditem_entry bt last], rest)).
+Proof.
+  intros Hcv Hall Hlast m bt.
+  assert (Hkw : forall l, forallb (fun k => (k =? T_const) || (k =? T_volatile)) l = true -> forallb spec_kw l = true).
+  { intros l H. rewrite forallb_forall in *. intros x Hx. specialize (H x Hx).
+    apply orb_prop in H as [H|H]; apply N.eqb_eq in H; subst x; reflexivity. }
+  assert (Hk : forallb spec_kw (pre ++ post) = true) by (now apply Hkw).
+  assert (Hpre : forallb spec_kw pre = true) by (rewrite forallb_app in Hk; now apply andb_prop in Hk as [? _]).
+  assert (Hpost : forallb spec_kw post = true) by (rewrite forallb_app in Hk; now apply andb_prop in Hk as [_ ?]).
+  assert (Hno : forall k, k <> T_const -> k <> T_volatile -> has k (pre ++ post) = false).
+  { intros k H1 H2. unfold has. apply not_true_is_false. intros E. apply existsb_exists in E as (x & Hx & Ex).
+    apply N.eqb_eq in Ex. subst x. rewrite forallb_forall in Hcv. specialize (Hcv k Hx).
+    apply orb_prop in Hcv as [H|H]; apply N.eqb_eq in H; contradiction. }
+  assert (Hval : validate false false m = true).
+  { rewrite validate_spec. destruct (apply_kws_fields (pre ++ post) mods0 Hk) as (_ & _ & A3 & A4 & A5 & A6 & A7 & A8 & A9).
+    unfold m. rewrite A3, A4, A5, A6, A7, A8, A9.
+    rewrite !Hno by discriminate. reflexivity. }
+  destruct (decl_items_td_rt b (m_const m) (m_volatile m) items last rest Hall Hlast) as [f1 H1].
+  exists f1. intros f Hge. unfold typedef_decl_stmt.
+  rewrite (specs_decode_lemma pre post b _ Hpre Hpost (items_head_stop items last LSemi rest)). rewrite apply_kws_app. fold m.
+  rewrite Hval. fold bt. now apply H1.
 Qed.
